@@ -75,12 +75,17 @@ class DumperBase(DataStreamProcessor):
         for descriptor in self.datapackage.descriptor['resources']:
             if descriptor['name'] == resource.res.descriptor['name']:
                 resource_descriptor = descriptor
-        DumperBase.inc_attr(resource_descriptor, self.resource_rowcount, counter)
+        DumperBase.set_attr(resource_descriptor, self.resource_rowcount, counter)
         resource.res.commit()
         self.datapackage.commit()
 
     def process_resources(self, resources):
         self.initialize()
+
+        # Totals inherited from an earlier dump (e.g. a loaded data package) must not be added to
+        for prop in (self.datapackage_rowcount, self.datapackage_bytes):
+            if DumperBase.get_attr(self.datapackage.descriptor, prop) is not None:
+                DumperBase.set_attr(self.datapackage.descriptor, prop, 0)
 
         resource: ResourceWrapper = None
         for resource in resources:
